@@ -8,6 +8,16 @@ NotImplemented, builtin types and functions, objects imitating True, containers 
 set, lambdas returning fresh containers, counters, attrs takes_self).  Input = required fields + a generated subset of
 the optional ones; dict and list layouts.
 
+Every field has a *loader kind*: ``Any`` (value passed as is), a recording user loader bound to the field
+(``loader(P[M].f, fn)``) or to its marker type, or a builtin scalar loader (int / str / Optional[int] / list, under both
+strict_coercion modes; reference = the standalone loader of that type).  A present key holds a unique object or a value
+a careless presence test confuses with absence: None, Ellipsis, NotImplemented, falsy scalars, the declared default
+itself, an equal copy of it, an object equal to everything.  A bounded table enumerates (position of the optional field
+x sentinel-looking default x sentinel-looking present value x loader kind x debug_trail x strict_coercion) completely.
+A second family ("tree") generates recursive / mutually recursive TypedDict (NotRequired), attrs (takes_self
+factories) and dataclass models with data 0..4 levels deep, every node with its own subset of optional keys, optionally
+re-entering the retort for the same model from inside a field loader; oracle = constructor-call log per object.
+
 Oracle: exactly one constructor call per load; the call binds to the signature; every *present* field's value is bound
 (by identity) to its own parameter; a parameter of an *absent* field is either not passed or passed the true default
 (same type, equal); the result is attribute-wise equal with exact types to the object the harness builds directly
@@ -21,6 +31,7 @@ import enum
 import inspect
 import itertools
 import math
+import sys
 import types
 import typing
 from decimal import Decimal
@@ -33,7 +44,9 @@ env.import_adaptix()
 
 from hypothesis import strategies as st  # noqa: E402
 
-from adaptix import DebugTrail, ProviderNotFoundError, Retort, name_mapping  # noqa: E402
+from adaptix import DebugTrail, P, ProviderNotFoundError, Retort, name_mapping  # noqa: E402
+from adaptix import loader as adaptix_loader  # noqa: E402
+from adaptix.load_error import LoadError  # noqa: E402
 from vkit import tspec  # noqa: E402
 
 PROP = "C08"
@@ -124,11 +137,38 @@ FACTORIES = {
 }
 KINDS = ["dataclass", "attrs", "plain", "namedtuple", "pydantic"]
 NAMES = ["a", "b", "c", "d", "e", "f_", "_g", "data", "value", "self_"]
+# defaults that look like "nothing here" -- the values a hand-rolled presence test is tempted to use instead of a private sentinel
+SENTINEL_LIKE = ["None", "None", "None", "Ellipsis", "NotImplemented", "0", "False", "''", "()"]
+# what a present key may hold (see ``present_value``)
+PVALS = ["u", "u", "u", "u", "None", "None", "0", "False", "empty_str", "empty_tuple", "Ellipsis", "NotImplemented",
+         "default", "default", "default_eq", "eq_all"]
+# loader kinds of a field: ``Any`` (no loader at all), recording user loader bound to the field / to the field's marker type,
+# builtin loaders whose verdict on None / falsy values differs from "pass through"
+LOADER_KINDS = ["asis", "asis", "asis", "asis", "user", "user", "utype", "int", "str", "optint", "list"]
+TYPED = {"int": "int", "str": "str", "optint": "typing.Optional[int]", "list": "list"}
+
+
+class EqAll:
+    """Equal to everything (and falsy): what ``value == sentinel`` / ``not value`` presence tests stumble over."""
+    def __eq__(self, other):
+        return True
+
+    def __ne__(self, other):
+        return False
+
+    def __hash__(self):
+        return 0
+
+    def __bool__(self):
+        return False
+
+    def __repr__(self):
+        return "EqAll()"
 
 
 # ------------------------------------------------------------------------------------ strategies
 @st.composite
-def st_case(draw):
+def st_flat(draw):
     kind = draw(st.sampled_from(KINDS))
     n = draw(st.integers(1, 6))
     names = draw(st.lists(st.sampled_from(NAMES), min_size=n, max_size=n, unique=True))
@@ -138,8 +178,12 @@ def st_case(draw):
     for nm in names:
         f = {"n": nm, "pk": "pos_or_kw", "d": None}
         r = draw(st.integers(0, 9))
+        ld = draw(st.sampled_from(LOADER_KINDS))
+        if kind == "pydantic" and ld not in ("asis", "user"):
+            ld = "user"   # pydantic validates what it is given against the annotation a second time: keep ``Any``
+        f["ld"] = ld
         if r < 4:
-            f["d"] = ["v", draw(st.sampled_from(sorted(DEFAULTS)))]
+            f["d"] = ["v", draw(st.sampled_from(SENTINEL_LIKE if draw(st.integers(0, 3)) == 0 else sorted(DEFAULTS)))]
             if kind == "pydantic" and f["d"][1] == "Ellipsis":
                 f["d"] = ["v", "NotImplemented"]  # pydantic reads ``= ...`` as "required"
         elif r < 6 and kind in ("dataclass", "attrs", "pydantic"):
@@ -172,13 +216,13 @@ def st_case(draw):
     layout = draw(st.sampled_from(["dict", "dict", "dict", "list"]))
     # what a present field holds: a unique object, or one of the falsy singletons a careless "is it there?" test confuses
     # with absence
-    pvals = [draw(st.sampled_from(["u", "u", "u", "None", "None", "0", "False", "empty_str", "empty_tuple"])) for _ in fields]
+    pvals = [draw(st.sampled_from(PVALS)) for _ in fields]
     # the mapping the fields arrive in: for some, ``data[key]`` of an ABSENT key answers (``__missing__``) or the mapping is not a
     # dict at all -- "absent" is what ``key in data`` says
     mapping = draw(st.sampled_from(["dict", "dict", "dict", "dict", "defaultdict", "counter", "missing_dict", "mappingproxy",
                                     "chainmap"]))
     return {"kind": kind, "fields": fields, "present": present, "layout": layout, "debug": draw(st.integers(0, 2)),
-            "hooks": draw(st.booleans()), "pvals": pvals, "mapping": mapping}
+            "hooks": draw(st.booleans()), "pvals": pvals, "mapping": mapping, "sc": draw(st.booleans())}
 
 
 class MissingDict(dict):
@@ -210,7 +254,14 @@ def build_model(case, log):  # noqa: C901, PLR0912, PLR0915
     ns: dict = {"dataclasses": dataclasses, "typing": typing, "Any": typing.Any, "LOG": log}
     defaults = {}
     lines = []
+    ann = []    # annotation of every field: decides which loader adaptix uses for it
     for i, f in enumerate(case["fields"]):
+        ld = f.get("ld", "asis")
+        if ld == "utype":
+            ns[f"_M{i}"] = type(f"Marker{i}", (), {})
+            ann.append(f"_M{i}")
+        else:
+            ann.append(TYPED.get(ld, "Any"))
         d = f["d"]
         if d is not None and d[0] == "v":
             defaults[f["n"]] = ns[f"_D{i}"] = DEFAULTS[d[1]]()
@@ -228,7 +279,7 @@ def build_model(case, log):  # noqa: C901, PLR0912, PLR0915
                 opts.append(f"default_factory=_F{i}")
             if f["pk"] == "kw_only":
                 opts.append("kw_only=True")
-            lines.append(f"    {f['n']}: Any = dataclasses.field({', '.join(opts)})" if opts else f"    {f['n']}: Any")
+            lines.append(f"    {f['n']}: {ann[i]} = dataclasses.field({', '.join(opts)})" if opts else f"    {f['n']}: {ann[i]}")
         if hooks:
             lines += ["    def __post_init__(self):", "        LOG.append(('post_init',))"]
     elif kind == "attrs":
@@ -246,13 +297,13 @@ def build_model(case, log):  # noqa: C901, PLR0912, PLR0915
                 opts.append("default=attrs.Factory(lambda self: ('from_self', id(self) != 0), takes_self=True)")
             if f["pk"] == "kw_only":
                 opts.append("kw_only=True")
-            lines.append(f"    {f['n']}: Any = attrs.field({', '.join(opts)})")
+            lines.append(f"    {f['n']}: {ann[i]} = attrs.field({', '.join(opts)})")
         if hooks:
             lines += ["    def __attrs_post_init__(self):", "        LOG.append(('post_init',))"]
     elif kind == "namedtuple":
         lines += [f"class {cname}(typing.NamedTuple):"]
         for i, f in enumerate(case["fields"]):
-            lines.append(f"    {f['n']}: Any" + (f" = _D{i}" if f["d"] else ""))
+            lines.append(f"    {f['n']}: {ann[i]}" + (f" = _D{i}" if f["d"] else ""))
     elif kind == "pydantic":
         import pydantic  # noqa: PLC0415
         ns["pydantic"] = pydantic
@@ -260,11 +311,11 @@ def build_model(case, log):  # noqa: C901, PLR0912, PLR0915
         for i, f in enumerate(case["fields"]):
             d = f["d"]
             if d is None:
-                lines.append(f"    {f['n']}: Any")
+                lines.append(f"    {f['n']}: {ann[i]}")
             elif d[0] == "v":
-                lines.append(f"    {f['n']}: Any = _D{i}")
+                lines.append(f"    {f['n']}: {ann[i]} = _D{i}")
             else:
-                lines.append(f"    {f['n']}: Any = pydantic.Field(default_factory=_F{i})")
+                lines.append(f"    {f['n']}: {ann[i]} = pydantic.Field(default_factory=_F{i})")
         if hooks:
             lines += ["    @pydantic.model_validator(mode='after')", "    def _after(self):", "        LOG.append(('post_init',))",
                       "        return self"]
@@ -282,7 +333,7 @@ def build_model(case, log):  # noqa: C901, PLR0912, PLR0915
             if f["pk"] == "pos_or_kw" and not emitted_slash and any(x["pk"] == "pos_only" for x in fields):
                 params.append("/")
                 emitted_slash = True
-            params.append(f"{f['n']}: Any" + (f" = _D{i}" if f["d"] else ""))
+            params.append(f"{f['n']}: {ann[i]}" + (f" = _D{i}" if f["d"] else ""))
         if any(x["pk"] == "pos_only" for x in fields) and not emitted_slash:
             params.append("/")
         lines += [f"class {cname}:", f"    def __init__(self, {', '.join(params)}):"]
@@ -312,7 +363,7 @@ def build_model(case, log):  # noqa: C901, PLR0912, PLR0915
         logging_init.__wrapped__ = orig_init  # type: ignore[attr-defined]
         logging_init.__annotations__ = getattr(orig_init, "__annotations__", {})
         cls.__init__ = logging_init
-    return cls, defaults, src
+    return cls, defaults, src, {i: ns[f"_M{i}"] for i, f in enumerate(case["fields"]) if f.get("ld") == "utype"}
 
 
 def param_name(f, kind):
@@ -351,31 +402,87 @@ def same_default(a, b) -> bool:
 
 
 # ------------------------------------------------------------------------------------ oracle
-def check_case(ctx: runner.Ctx, case):  # noqa: C901, PLR0912, PLR0915
+_SIMPLE_PVALS = {"None": None, "0": 0, "False": False, "empty_str": "", "empty_tuple": (), "Ellipsis": ...,
+                 "NotImplemented": NotImplemented}
+_REF: dict = {}
+_REF_TYPES = {"int": int, "str": str, "optint": typing.Optional[int], "list": list}
+
+
+def ref_loader(ld, sc, debug):
+    """Standalone loader of a builtin field type: the reference for "the loaded value of a present field"."""
+    key = (ld, sc, debug)
+    if key not in _REF:
+        _REF[key] = Retort(strict_coercion=sc, debug_trail=DEBUG[debug]).get_loader(_REF_TYPES[ld])
+    return _REF[key]
+
+
+def present_value(pv, f, i, defaults):
+    """The object stored under a present key."""
+    if pv in _SIMPLE_PVALS:
+        return _SIMPLE_PVALS[pv]
+    if pv == "eq_all":
+        return EqAll()
+    d = f["d"]
+    if pv in ("default", "default_eq") and d is not None:
+        if d[0] == "v":   # the declared default object itself / an equal object built anew
+            return defaults[f["n"]] if pv == "default" else DEFAULTS[d[1]]()
+        if d[0] == "f" and d[1] != "counter":
+            return FACTORIES[d[1]]()
+    ld = f.get("ld", "asis")
+    if ld in ("int", "optint"):
+        return 10 ** 6 + 7 * i
+    if ld == "str":
+        return f"s{i}-{f['n']}"
+    if ld == "list":
+        return [("item", f["n"])]
+    return ("value-of", f["n"], object())   # identity is checked
+
+
+def matches(exp, got) -> bool:
+    return got is exp[1] if exp[0] == "is" else same_default(got, exp[1])
+
+
+def check_case(ctx: runner.Ctx, case):
+    if case.get("fam") == "tree":
+        return check_tree(ctx, case)
+    return check_flat(ctx, case)
+
+
+def check_flat(ctx: runner.Ctx, case):  # noqa: C901, PLR0912, PLR0915
     kind, fields = case["kind"], case["fields"]
     if kind in ("namedtuple", "pydantic") and any(f["n"].startswith("_") for f in fields):
         ctx.count("skipped_private_name_not_expressible")
         return
     log: list = []
     try:
-        cls, defaults, src = build_model(case, log)
+        cls, defaults, src, markers = build_model(case, log)
     except Exception as ex:  # noqa: BLE001  (Python / the model library refuses the generated class)
         ctx.count(f"class_refused_by_python:{type(ex).__name__}")
         return
     optional = [f for f in fields if f["d"] is not None]
+    sc, debug = bool(case.get("sc", True)), case["debug"]
+    lds = [f.get("ld", "asis") for f in fields]
     # which fields are present in the input: required ones always; positional-only ones too (adaptix documents
     # positional-only parameters as always required)
     present = {}
     pvals = case.get("pvals") or ["u"] * len(fields)
-    for f, p, pv in zip(fields, case["present"], pvals):
+    for i, (f, p, pv) in enumerate(zip(fields, case["present"], pvals)):
         if f["d"] is None or p or f["pk"] == "pos_only" or case["layout"] == "list":
-            # identity is checked: a unique object, or a falsy singleton
-            present[f["n"]] = {"None": None, "0": 0, "False": False, "empty_str": "", "empty_tuple": ()}.get(
-                pv, ("value-of", f["n"], object()))
-    if kind == "attrs" and any(f["n"].startswith("_") for f in fields):
-        pass
-    retort = Retort(recipe=[name_mapping(cls, as_list=True)] if case["layout"] == "list" else [],
-                    debug_trail=DEBUG[case["debug"]])
+            present[f["n"]] = present_value(pv, f, i, defaults)
+    recipe: list = [name_mapping(cls, as_list=True)] if case["layout"] == "list" else []
+
+    def recorder(i):
+        def rec(value):
+            out = ("loaded", i, value)   # a fresh object per call: None, the default, ... are values like any other
+            log.append(("ld", i, value, out))
+            return out
+        return rec
+    for i, f in enumerate(fields):
+        if lds[i] == "user":
+            recipe.append(adaptix_loader(P[cls][f["n"]], recorder(i)))
+        elif lds[i] == "utype":
+            recipe.append(adaptix_loader(markers[i], recorder(i)))
+    retort = Retort(recipe=recipe, debug_trail=DEBUG[debug], strict_coercion=sc)
     try:
         loader = retort.get_loader(cls)
     except ProviderNotFoundError as ex:
@@ -390,26 +497,75 @@ def check_case(ctx: runner.Ctx, case):  # noqa: C901, PLR0912, PLR0915
     if case["layout"] == "list":
         datum: typing.Any = [present[f["n"]] for f in fields]
     else:
-        datum = {tspec.model_key(f["n"]) if not f["n"].startswith("_") else f["n"]: present[f["n"]]
-                 for f in fields if f["n"] in present}
-        if kind == "attrs":
-            datum = {(f["n"].lstrip("_") if False else tspec.model_key(f["n"])): present[f["n"]] for f in fields if f["n"] in present}
+        datum = {tspec.model_key(f["n"]): present[f["n"]] for f in fields if f["n"] in present}
         datum = wrap_mapping(datum, case.get("mapping", "dict"))
+    # the loaded value of every present field: the object itself (``Any``), what the standalone loader of the field's
+    # type makes of it (builtin loaders), or what the recording user loader returned (filled in after the load)
+    base_exp: dict = {}
+    rejected = []
+    for i, f in enumerate(fields):
+        if f["n"] not in present:
+            continue
+        if lds[i] in TYPED:
+            try:
+                base_exp[f["n"]] = ("eq", ref_loader(lds[i], sc, debug)(present[f["n"]]))
+            except LoadError:
+                rejected.append(f["n"])
+            except Exception:  # noqa: BLE001  (the builtin loader itself misbehaves: C04's business)
+                ctx.count("unspecified:reference_loader_raised_non_LoadError")
+                return
+        elif lds[i] == "asis":
+            base_exp[f["n"]] = ("is", present[f["n"]])
     absent = [f for f in fields if f["n"] not in present]
     lookalike = any(f["d"][0] == "v" and f["d"][1] not in ("'x'", "-1", "2**70", "bytes_a") for f in absent) or \
         any(f["d"][0] in ("f", "fs") for f in absent)
     skipped_then_present = any(fields[i]["n"] not in present and any(g["n"] in present for g in fields[i + 1:])
                                for i in range(len(fields)))
-    ctx.case([case], bool(absent) and (lookalike or skipped_then_present),
-             sample={"kind": kind, "fields": fields, "present": sorted(present), "layout": case["layout"], "debug": case["debug"]},
-             labels=[f"kind:{kind}", f"layout:{case['layout']}", f"absent:{min(len(absent), 3)}",
+    # a present optional key holding a "nothing here" look-alike while its loader is not the identity
+    odd_through_loader = any(f["n"] in present and f["d"] is not None and pv != "u" and ld != "asis"
+                             for f, pv, ld in zip(fields, pvals, lds))
+    first_optional = bool(fields) and fields[0]["d"] is not None
+    ctx.case([case], (bool(absent) and (lookalike or skipped_then_present)) or odd_through_loader,
+             sample={"kind": kind, "fields": fields, "present": sorted(present), "layout": case["layout"], "debug": debug, "sc": sc,
+                     "pvals": pvals},
+             labels=[f"kind:{kind}", f"layout:{case['layout']}", f"absent:{min(len(absent), 3)}", f"strict_coercion:{sc}",
                      *([f"mapping:{case.get('mapping', 'dict')}"] if case["layout"] != "list" else []),
                      *[f"present_value:{pv}" for f, pv in zip(fields, pvals) if f["n"] in present and f["d"] is not None],
+                     *[f"present_optional_loader:{ld}" for f, ld in zip(fields, lds) if f["n"] in present and f["d"] is not None],
+                     *[f"odd_value_through_loader:{ld}:{'first' if i == 0 else 'later'}"
+                       for i, (f, pv, ld) in enumerate(zip(fields, pvals, lds))
+                       if f["n"] in present and f["d"] is not None and pv != "u" and ld != "asis"],
+                     *(["present_default_None_holds_None_through_loader"] if any(
+                         f["n"] in present and f["d"] == ["v", "None"] and present[f["n"]] is None and ld != "asis"
+                         for f, ld in zip(fields, lds)) else []),
+                     *(["first_field_optional"] if first_optional else []),
+                     *(["expect_load_error"] if rejected else []),
                      *(["skipped_then_present"] if skipped_then_present else []),
                      *[f"pk:{f['pk']}" for f in fields], *[f"default:{f['d'][0]}" for f in fields if f["d"]]])
-    head = f"kind={kind} layout={case['layout']} debug={case['debug']} fields={fields} present={sorted(present)}\n{src}"
+    head = (f"kind={kind} layout={case['layout']} debug={debug} strict_coercion={sc} fields={fields} present={sorted(present)} "
+            f"datum={datum!r}\n{src}")
+
+    if rejected:
+        # the loader of a present field rejects the value: no object may be built
+        log.clear()
+        try:
+            obj = loader(datum)
+        except LoadError:
+            if any(e[0] == "call" for e in log):
+                ctx.violation("constructor_called_although_a_field_was_rejected", (kind,), case, f"{head}\nlog={log!r}")
+            return
+        except Exception as ex:  # noqa: BLE001
+            ctx.violation("load_failed", (kind, type(ex).__name__, exc_site(ex)), case, f"{head}\n{describe(ex)}")
+            return
+        ctx.violation("load_accepted_a_value_the_field_loader_rejects",
+                      ("+".join(sorted({lds[i] for i, f in enumerate(fields) if f["n"] in rejected})),
+                       "+".join(sorted({pvals[i] for i, f in enumerate(fields) if f["n"] in rejected}))), case,
+                      f"{head}\nthe standalone loader(s) of field(s) {rejected} raise LoadError for the value present in the input, "
+                      f"the model loader returned {obj!r}")
+        return
 
     results = []
+    exps = []
     for _ in range(2):
         log.clear()
         try:
@@ -419,6 +575,25 @@ def check_case(ctx: runner.Ctx, case):  # noqa: C901, PLR0912, PLR0915
             return
         calls = [e for e in log if e[0] == "call"]
         posts = [e for e in log if e[0] == "post_init"]
+        # user loaders: exactly one call per present key, with exactly the value of the key; none for an absent key
+        exp = dict(base_exp)
+        for i, f in enumerate(fields):
+            if lds[i] not in ("user", "utype"):
+                continue
+            mine = [e for e in log if e[0] == "ld" and e[1] == i]
+            where = "first_field" if i == 0 else "later_field"
+            if f["n"] not in present:
+                if mine:
+                    ctx.violation("field_loader_called_for_absent_key", (lds[i], where), case,
+                                  f"{head}\nfield {f['n']} is absent, its loader was called with {[e[2] for e in mine]!r}")
+                    return
+                continue
+            if len(mine) != 1 or mine[0][2] is not present[f["n"]]:
+                ctx.violation("field_loader_not_called_once_with_the_present_value", (lds[i], where, str(len(mine))), case,
+                              f"{head}\nfield {f['n']} is present with {present[f['n']]!r}; calls of its loader: "
+                              f"{[e[2] for e in mine]!r}; constructor calls: {calls!r}")
+                return
+            exp[f["n"]] = ("is", mine[0][3])
         if len(calls) != 1:
             ctx.violation("constructor_call_count", (kind, str(len(calls))), case, f"{head}\ncalls={calls!r}")
             return
@@ -434,11 +609,12 @@ def check_case(ctx: runner.Ctx, case):  # noqa: C901, PLR0912, PLR0915
         for f in fields:
             pn = param_name(f, kind)
             if f["n"] in present:
-                if pn not in bound.arguments or bound.arguments[pn] is not present[f["n"]]:
+                if pn not in bound.arguments or not matches(exp[f["n"]], bound.arguments[pn]):
                     ctx.violation("present_value_bound_to_wrong_parameter",
                                   (kind, f["pk"], "after_skipped" if skipped_then_present else "plain",
                                    "+".join(sorted({x["d"][0] for x in absent}))), case,
-                                  f"{head}\nparameter {pn} got {bound.arguments.get(pn, '<nothing>')!r}; args={args!r} kwargs={kwargs!r}")
+                                  f"{head}\nparameter {pn} got {bound.arguments.get(pn, '<nothing>')!r}, the loaded value of the "
+                                  f"present field is {exp[f['n']][1]!r}; args={args!r} kwargs={kwargs!r}")
             elif pn in bound.arguments:
                 d = f["d"]
                 passed = bound.arguments[pn]
@@ -447,9 +623,11 @@ def check_case(ctx: runner.Ctx, case):  # noqa: C901, PLR0912, PLR0915
                                   f"{head}\nparameter {pn} of absent field was passed {passed!r} ({type(passed).__name__}); "
                                   f"declared default {defaults[f['n']]!r} ({type(defaults[f['n']]).__name__})")
         results.append(obj)
-    # compare with direct construction from the present fields
-    pos_args = [present[f["n"]] for f in fields if f["pk"] == "pos_only"]
-    kw_args = {param_name(f, kind): present[f["n"]] for f in fields if f["pk"] != "pos_only" and f["n"] in present}
+        exps.append(exp)
+    # compare with direct construction from the loaded values of the present fields
+    exp = exps[0]
+    pos_args = [exp[f["n"]][1] for f in fields if f["pk"] == "pos_only"]
+    kw_args = {param_name(f, kind): exp[f["n"]][1] for f in fields if f["pk"] != "pos_only" and f["n"] in present}
     log.clear()
     try:
         direct = cls(*pos_args, **kw_args)
@@ -457,17 +635,17 @@ def check_case(ctx: runner.Ctx, case):  # noqa: C901, PLR0912, PLR0915
         raise env.HarnessError(f"direct construction failed: {ex!r}\n{head}") from ex
     for f in fields:
         got = attr_value(results[0], f, kind)
-        exp = attr_value(direct, f, kind)
+        expv = attr_value(direct, f, kind)
         d = f["d"]
         if f["n"] in present:
-            if got is not present[f["n"]]:
-                ctx.violation("present_value_lost", (kind,), case, f"{head}\nfield {f['n']}: {got!r}")
+            if not matches(exp[f["n"]], got):
+                ctx.violation("present_value_lost", (kind,), case, f"{head}\nfield {f['n']}: {got!r}, loaded value {exp[f['n']][1]!r}")
             continue
         if d[0] == "v":
-            if not same_default(got, exp):
+            if not same_default(got, expv):
                 ctx.violation("absent_field_not_true_default", (kind, d[1]), case,
                               f"{head}\nfield {f['n']} holds {got!r} ({type(got).__name__}); the model itself produces "
-                              f"{exp!r} ({type(exp).__name__})")
+                              f"{expv!r} ({type(expv).__name__})")
         elif d[0] == "f":
             got2 = attr_value(results[1], f, kind)
             if d[1] == "counter":
@@ -475,26 +653,461 @@ def check_case(ctx: runner.Ctx, case):  # noqa: C901, PLR0912, PLR0915
                 if not (type(got) is int and type(got2) is int and got2 == got + ncounters):
                     ctx.violation("factory_not_called_once_per_load", (kind,), case, f"{head}\ncounter values {got!r}, {got2!r}")
             else:
-                if type(got) is not type(exp) or got != exp:
-                    ctx.violation("absent_field_not_factory_result", (kind, d[1]), case, f"{head}\nfield {f['n']}: {got!r} vs {exp!r}")
-                if isinstance(got, (list, dict, set, bytearray)) and (got is got2 or got is exp):
+                if type(got) is not type(expv) or got != expv:
+                    ctx.violation("absent_field_not_factory_result", (kind, d[1]), case, f"{head}\nfield {f['n']}: {got!r} vs {expv!r}")
+                if isinstance(got, (list, dict, set, bytearray)) and (got is got2 or got is expv):
                     ctx.violation("factory_result_shared", (kind, d[1]), case, f"{head}\nfield {f['n']}: same object in two loads")
         elif d[0] == "fs":
             if got != ("from_self", True):
                 ctx.violation("takes_self_factory_wrong", (kind,), case, f"{head}\nfield {f['n']}: {got!r}")
 
 
+# ------------------------------------------------------------------------------------ tree family
+# Recursive / mutually recursive models whose compiled loader is re-entered while an object is being loaded; every node of
+# the data carries its own subset of optional keys.  The oracle is the same: each object is built by one constructor call
+# from exactly the loaded values of the keys present in ITS OWN datum.
+TREE_KINDS = ["typeddict", "typeddict", "attrs", "attrs", "dataclass"]
+TREE_DEFAULTS = ["None", "Ellipsis", "0", "Decimal1", "(1,)", "'x'"]
+SHAPE_ANN = {"one": "{t}", "opt": "typing.Optional[{t}]", "list": "list[{t}]", "dict": "dict[str, {t}]"}
+# attrs: a forward reference inside a builtin generic (``list['M']``) or a whole-string annotation is not resolvable from the
+# generated ``__init__`` (attrs gives it a copy of the module namespace made before the class exists) and adaptix reads the
+# hints of ``__init__``: NameError at loader creation, see notes/C08.md.  typing generics share their ForwardRef objects with
+# the class annotations, which adaptix resolves first -- spelled that way the models load.
+SHAPE_ANN_ATTRS = {"opt": "typing.Optional[{t}]", "list": "typing.List[{t}]", "dict": "typing.Dict[str, {t}]"}
+
+
+@st.composite
+def st_node(draw, models, m, depth, budget, root=False):
+    budget[0] -= 1
+    node = {"m": m, "s": [], "l": []}
+    for f in models[m]["fields"]:
+        if f["role"] == "scalar":
+            node["s"].append(draw(st.sampled_from([None, None, "u", "u", "u", "None", "Ellipsis"])))
+            continue
+        if depth <= 0 or budget[0] <= 0 or (not (root and not node["l"]) and draw(st.sampled_from([True, True, True, True, False])) is False):
+            node["l"].append(None)   # (the first link of the root is there whenever the drawn depth allows it)
+        elif f["shape"] in ("list", "dict"):
+            node["l"].append([draw(st_node(models, f["to"], depth - 1, budget)) for _ in range(draw(st.sampled_from([1, 2, 2, 0])))])
+        elif f["shape"] == "opt" and draw(st.integers(0, 7)) == 0:
+            node["l"].append("none")
+        else:
+            node["l"].append(draw(st_node(models, f["to"], depth - 1, budget)))
+    return node
+
+
+@st.composite
+def st_tree(draw):
+    kind = draw(st.sampled_from(TREE_KINDS))
+    nmodels = draw(st.sampled_from([1, 1, 2]))
+    models = []
+    for _ in range(nmodels):
+        fields = []
+        for nm in ["a", "b", "c", "d"][:draw(st.integers(1, 4))]:
+            if kind == "typeddict":
+                f = {"n": nm, "role": "scalar", "opt": draw(st.sampled_from(["nr", "nr", "bare"]))}
+            elif kind == "attrs":
+                f = {"n": nm, "role": "scalar", "opt": draw(st.sampled_from(["fs", "fs", "v", "f"]))}
+            else:
+                f = {"n": nm, "role": "scalar", "opt": draw(st.sampled_from(["v", "v", "f"]))}
+            if f["opt"] == "v":
+                f["dv"] = draw(st.sampled_from(TREE_DEFAULTS))
+            f["ld"] = draw(st.sampled_from(["asis", "asis", "user"]))
+            fields.append(f)
+        for nm in ["child", "other"][:draw(st.sampled_from([1, 1, 2]))]:
+            f = {"n": nm, "role": "link", "to": draw(st.integers(0, nmodels - 1)),
+                 "shape": draw(st.sampled_from(["one", "one", "opt", "list", "dict"])),
+                 # the link is loaded by adaptix itself, or by a user loader that calls ``retort.load`` for the target model
+                 "re": draw(st.integers(0, 3)) == 0}
+            if kind == "typeddict":
+                f["opt"] = draw(st.sampled_from(["nr", "nr", "bare"]))
+            else:
+                if f["shape"] == "one":
+                    f["shape"] = "opt"   # a class attribute needs a default to be optional: None
+                f["opt"] = draw(st.sampled_from(["d", "d", "fs"])) if kind == "attrs" else "d"
+            fields.append(f)
+        fields = draw(st.permutations(fields))
+        models.append({"fields": list(fields), "total": draw(st.booleans()), "uid_req": draw(st.integers(0, 3)) != 0})
+    if nmodels == 2 and not any(f["role"] == "link" and f["to"] == 1 for f in models[0]["fields"]):
+        next(f for f in models[0]["fields"] if f["role"] == "link")["to"] = 1   # the second model is reachable
+    depth = draw(st.sampled_from([2, 3, 2, 3, 4, 2, 3, 4, 1, 0]))
+    data = draw(st_node(models, 0, depth, [draw(st.sampled_from([6, 12, 20]))], root=True))
+    return {"fam": "tree", "kind": kind, "models": models, "data": data, "debug": draw(st.integers(0, 2)),
+            "hooks": draw(st.booleans())}
+
+
+def build_tree_models(case, log, modname):  # noqa: C901, PLR0912
+    kind, models = case["kind"], case["models"]
+    mod = types.ModuleType(modname)
+    ns = mod.__dict__
+    ns.update({"dataclasses": dataclasses, "typing": typing, "Any": typing.Any, "LOG": log})
+    if kind == "attrs":
+        import attrs  # noqa: PLC0415
+        ns["attrs"] = attrs
+    names = [f"C08T{next(_uid)}" for _ in models]
+    lines = []
+    dvals: dict = {}
+    for m, ms in enumerate(models):
+        cname = names[m]
+        total = ms["total"] and not any(f["opt"] == "bare" for f in ms["fields"])
+        if kind == "typeddict":
+            lines.append(f"class {cname}(typing.TypedDict, total={total}):")
+            lines.append("    uid: Any" if total else ("    uid: typing.Required[Any]" if ms["uid_req"] else "    uid: Any"))
+        elif kind == "attrs":
+            lines += ["@attrs.define", f"class {cname}:", "    uid: Any"]
+        else:
+            lines += ["@dataclasses.dataclass", f"class {cname}:", "    uid: Any"]
+        for i, f in enumerate(ms["fields"]):
+            if f["role"] == "scalar" or f["re"]:
+                ann = "Any"
+            else:
+                ann = (SHAPE_ANN_ATTRS if kind == "attrs" else SHAPE_ANN)[f["shape"]].format(t=repr(names[f["to"]]))
+            if kind == "typeddict":
+                lines.append(f"    {f['n']}: {ann}" if f["opt"] == "bare" else f"    {f['n']}: typing.NotRequired[{ann}]")
+                continue
+            fld = "attrs.field" if kind == "attrs" else "dataclasses.field"
+            fac = "factory" if kind == "attrs" else "default_factory"
+            if f["opt"] == "fs":
+                dflt = "default=attrs.Factory(lambda self: ('from_self', self.uid), takes_self=True)"
+            elif f["opt"] == "v":
+                dvals[m, f["n"]] = ns[f"_D{m}_{i}"] = DEFAULTS[f["dv"]]()
+                dflt = f"default=_D{m}_{i}"
+            elif f["opt"] == "f":
+                dflt = f"{fac}=list"
+            else:  # "d": the natural default of a link
+                dflt = {"opt": "default=None", "list": f"{fac}=list", "dict": f"{fac}=dict"}[f["shape"]]
+            lines.append(f"    {f['n']}: {ann} = {fld}({dflt})")
+        if kind != "typeddict" and case.get("hooks"):
+            hook = "__attrs_post_init__" if kind == "attrs" else "__post_init__"
+            lines += [f"    def {hook}(self):", f"        LOG.append(('post_init', {m}, self.uid))"]
+        lines.append("")
+    src = "\n".join(lines) + "\n"
+    exec(compile(src, f"<c08 {modname}>", "exec", dont_inherit=True), ns)  # noqa: S102
+    classes = [ns[n] for n in names]
+    if kind != "typeddict":
+        for m, cls in enumerate(classes):
+            def wrap(cls=cls, m=m):
+                orig_init = cls.__init__
+
+                def logging_init(self, *a, **kw):
+                    log.append(("call", m, a, kw))
+                    orig_init(self, *a, **kw)
+                logging_init.__signature__ = inspect.signature(orig_init)  # type: ignore[attr-defined]
+                logging_init.__wrapped__ = orig_init  # type: ignore[attr-defined]
+                logging_init.__annotations__ = getattr(orig_init, "__annotations__", {})
+                cls.__init__ = logging_init
+            wrap()
+    return mod, classes, dvals, src
+
+
+def check_tree(ctx: runner.Ctx, case):  # noqa: C901, PLR0912, PLR0915
+    kind, models = case["kind"], case["models"]
+    log: list = []
+    modname = f"c08_dyn_{next(_uid)}"
+    mod, classes, dvals, src = build_tree_models(case, log, modname)
+    sys.modules[modname] = mod    # forward references between the models resolve through the module of the classes
+    try:
+        _check_tree(ctx, case, kind, models, classes, dvals, src, log)
+    finally:
+        sys.modules.pop(modname, None)
+
+
+def _check_tree(ctx, case, kind, models, classes, dvals, src, log):  # noqa: C901, PLR0912, PLR0915
+    holder: list = []
+    recipe = []
+
+    def recorder(m, n):
+        def rec(value):
+            out = ("loaded", m, n, value)
+            log.append(("ld", m, n, value, out))
+            return out
+        return rec
+
+    def reenter(m, f):
+        target = classes[f["to"]]
+
+        def load_link(value):   # user code that loads the target model through the same retort while a load is running
+            log.append(("re", m, f["n"]))
+            load = holder[0].load
+            if f["shape"] == "list":
+                return [load(x, target) for x in value]
+            if f["shape"] == "dict":
+                return {k: load(x, target) for k, x in value.items()}
+            return None if (value is None and f["shape"] == "opt") else load(value, target)
+        return load_link
+    for m, ms in enumerate(models):
+        for f in ms["fields"]:
+            if f["role"] == "scalar" and f["ld"] == "user":
+                recipe.append(adaptix_loader(P[classes[m]][f["n"]], recorder(m, f["n"])))
+            elif f["role"] == "link" and f["re"]:
+                recipe.append(adaptix_loader(P[classes[m]][f["n"]], reenter(m, f)))
+    retort = Retort(recipe=recipe, debug_trail=DEBUG[case["debug"]])
+    holder.append(retort)
+
+    # ---- the datum and, per node, what its object must be built from
+    infos: list = []
+
+    def mk(node, ancestors):
+        m = node["m"]
+        info = {"m": m, "uid": ("uid", len(infos)), "present": {}, "links": {}, "anc": ancestors}
+        infos.append(info)
+        datum = {"uid": info["uid"]}
+        si = li = 0
+        for f in models[m]["fields"]:
+            if f["role"] == "scalar":
+                pv = node["s"][si]
+                si += 1
+                if pv is not None:
+                    datum[f["n"]] = info["present"][f["n"]] = _SIMPLE_PVALS[pv] if pv in _SIMPLE_PVALS else ("val", info["uid"], f["n"])
+                continue
+            sub = node["l"][li]
+            li += 1
+            if sub is None:
+                continue
+            if sub == "none":
+                datum[f["n"]], info["links"][f["n"]] = None, "none"
+            elif isinstance(sub, list):
+                made = [mk(x, [*ancestors, info]) for x in sub]
+                info["links"][f["n"]] = [i for i, _ in made]
+                datum[f["n"]] = [d for _, d in made] if f["shape"] == "list" else {f"k{j}": d for j, (_, d) in enumerate(made)}
+            else:
+                info["links"][f["n"]], datum[f["n"]] = mk(sub, [*ancestors, info])
+        info["keys"] = set(info["present"]) | set(info["links"])
+        return info, datum
+    root, datum = mk(case["data"], [])
+    try:
+        loader = retort.get_loader(classes[0])
+    except Exception as ex:  # noqa: BLE001
+        ctx.violation("loader_creation_crashed", (kind, type(ex).__name__, exc_site(ex)), case, f"model source:\n{src}\n{describe(ex)}")
+        return
+    # a loader is re-entered for a node when an ancestor is of the same model; interesting when their key subsets differ
+    reentered = [i for i in infos if any(a["m"] == i["m"] for a in i["anc"])]
+    differing = [i for i in infos if any(a["m"] == i["m"] and a["keys"] != i["keys"] for a in i["anc"])]
+    depth = max(len(i["anc"]) for i in infos)
+    packed = any(f["opt"] in ("nr", "bare", "fs") for ms in models for f in ms["fields"])
+    via_user_code = any(f["role"] == "link" and f["re"] and f["n"] in i["links"] for i in infos for f in models[i["m"]]["fields"])
+    ctx.case([case], bool(differing),
+             sample={"kind": kind, "models": models, "depth": depth, "nodes": len(infos)},
+             labels=[f"tree:kind:{kind}", f"tree:depth:{depth}", f"tree:nodes:{min(len(infos), 8) // 2 * 2}+", f"tree:models:{len(models)}",
+                     *(["tree:loader_reentered"] if reentered else []),
+                     *(["tree:reentered_with_different_key_subset"] if differing else []),
+                     *(["tree:reentered_with_different_key_subset:packed_fields"] if differing and packed else []),
+                     *(["tree:reentered_from_user_loader"] if via_user_code else []),
+                     *(["tree:reentered_from_user_loader:different_key_subset"] if via_user_code and differing else [])])
+    head = f"tree kind={kind} debug={case['debug']} datum={datum!r}\n{src}"
+    try:
+        result = loader(datum)
+    except Exception as ex:  # noqa: BLE001
+        ctx.violation("load_failed", (kind, type(ex).__name__, exc_site(ex)), case, f"{head}\n{describe(ex)}")
+        return
+
+    # ---- constructor calls, keyed by the uid object they were given
+    calls_by_uid: dict = {}
+    ncalls = 0
+    if kind != "typeddict":
+        sigs = [inspect.signature(c) for c in classes]
+        for e in log:
+            if e[0] != "call":
+                continue
+            ncalls += 1
+            try:
+                bound = sigs[e[1]].bind(*e[2], **e[3])
+            except TypeError as te:
+                ctx.violation("call_does_not_bind", (kind,), case, f"{head}\nargs={e[2]!r} kwargs={e[3]!r}: {te}")
+                return
+            calls_by_uid.setdefault(id(bound.arguments.get("uid")), []).append(bound)
+        if ncalls != len(infos):
+            ctx.violation("constructor_call_count", (kind, "tree", "more" if ncalls > len(infos) else "fewer"), case,
+                          f"{head}\n{len(infos)} objects in the input, {ncalls} constructor calls")
+            return
+        if case.get("hooks"):
+            posts = [e for e in log if e[0] == "post_init"]
+            if len(posts) != len(infos):
+                ctx.violation("post_init_not_run", (kind, "tree"), case, f"{head}\n{len(posts)} hook runs for {len(infos)} objects")
+    ld_entries = [e for e in log if e[0] == "ld"]
+    used_out: set = set()
+    fresh_ids: set = set()
+    problems = []
+
+    def verify(info, obj):  # noqa: C901, PLR0912
+        m = info["m"]
+        ms, cls, uid = models[m], classes[m], info["uid"]
+        how = "reentered" if any(a["m"] == m for a in info["anc"]) else "outermost"
+        if kind == "typeddict":
+            if type(obj) is not dict:
+                problems.append(("result_type", (kind,), f"object {uid}: {obj!r}"))
+                return
+            missing, extra = (info["keys"] | {"uid"}) - set(obj), set(obj) - info["keys"] - {"uid"}
+            if missing or extra:
+                problems.append(("object_built_from_wrong_field_set",
+                                 (kind, "+".join(x for x, y in (("missing", missing), ("extra", extra)) if y), how),
+                                 f"object {uid}: keys present in its input {sorted(info['keys'])}, built from {sorted(obj)}"))
+                return
+
+            def getv(n):
+                return obj[n]
+        else:
+            if type(obj) is not cls:
+                problems.append(("result_type", (kind,), f"object {uid}: {obj!r}"))
+                return
+            bounds = calls_by_uid.get(id(uid), [])
+            if len(bounds) != 1:
+                problems.append(("constructor_call_count", (kind, "per_object", str(len(bounds))), f"object {uid}"))
+                return
+            passed = {k: v for k, v in bounds[0].arguments.items() if k != "uid"}
+            missing = info["keys"] - set(passed)
+            extra = {f["n"] for f in ms["fields"] if f["n"] in passed and f["n"] not in info["keys"] and f["opt"] == "fs"}
+            if missing or extra:
+                problems.append(("object_built_from_wrong_field_set",
+                                 (kind, "+".join(x for x, y in (("missing", missing), ("extra", extra)) if y), how),
+                                 f"object {uid}: keys present in its input {sorted(info['keys'])}, constructor was passed "
+                                 f"{sorted(passed)} (a takes_self default can not be passed by the loader)"))
+                return
+
+            def getv(n):
+                return getattr(obj, n)
+            for n in info["keys"]:
+                if passed[n] is not getv(n):
+                    problems.append(("constructor_argument_is_not_the_attribute", (kind,), f"object {uid} field {n}"))
+        for f in ms["fields"]:
+            n = f["n"]
+            if n not in info["keys"]:
+                if kind == "typeddict":
+                    continue
+                got = getv(n)   # what the model itself produces for an omitted field
+                if f["opt"] == "fs":
+                    ok = type(got) is tuple and len(got) == 2 and got[0] == "from_self" and got[1] is uid
+                elif f["opt"] == "v":
+                    ok = same_default(got, dvals[m, n])
+                else:
+                    want = None if f["opt"] == "d" and f["shape"] == "opt" else ({} if f.get("shape") == "dict" and f["opt"] == "d" else [])
+                    ok = type(got) is type(want) and got == want
+                    if want is not None:
+                        ok = ok and id(got) not in fresh_ids
+                        fresh_ids.add(id(got))
+                if not ok:
+                    problems.append(("absent_field_not_true_default", (kind, "tree", f["opt"], how),
+                                     f"object {uid} field {n} holds {got!r}"))
+                continue
+            got = getv(n)
+            if f["role"] == "scalar":
+                val = info["present"][n]
+                if f["ld"] == "asis":
+                    ok = got is val
+                else:
+                    ok = any(e[4] is got and e[3] is val and e[1] == m and e[2] == n for e in ld_entries) and id(got) not in used_out
+                    used_out.add(id(got))
+                if not ok:
+                    problems.append(("present_value_lost", (kind, "tree", f["ld"], how),
+                                     f"object {uid} field {n}: input {val!r}, object holds {got!r}"))
+                continue
+            sub = info["links"][n]
+            if sub == "none":
+                if got is not None:
+                    problems.append(("present_value_lost", (kind, "tree", "link_none", how), f"object {uid} field {n}: {got!r}"))
+            elif isinstance(sub, list):
+                if f["shape"] == "list":
+                    items = list(got) if type(got) is list else None
+                else:
+                    items = list(got.values()) if type(got) is dict and list(got) == [f"k{j}" for j in range(len(sub))] else None
+                if items is None or len(items) != len(sub):
+                    problems.append(("present_value_lost", (kind, "tree", "link_" + f["shape"], how), f"object {uid} field {n}: {got!r}"))
+                else:
+                    for x, o in zip(sub, items):
+                        verify(x, o)
+            else:
+                verify(sub, got)
+    verify(root, result)
+    # every user loader: one call per present key of every object, nothing else
+    want_ld = sum(1 for i in infos for f in models[i["m"]]["fields"] if f["role"] == "scalar" and f["ld"] == "user" and f["n"] in i["present"])
+    if not problems and len(ld_entries) != want_ld:
+        problems.append(("field_loader_not_called_once_with_the_present_value", ("tree", kind),
+                         f"{want_ld} present keys with a user loader, {len(ld_entries)} loader calls"))
+    for k, discr, text in problems[:3]:
+        ctx.violation(k, discr, case, f"{head}\nresult={result!r}\n{text}")
+
+
+# ------------------------------------------------------------------------------------ bounded table
+# "Is the key there?" must not depend on what the key holds, what the default is, where the field stands, which loader the
+# field has or which code variant (debug_trail) is generated: enumerate the product completely, through check_flat.
+TABLE_LAYOUTS = [   # P = the probed optional field; r = required; o+ / o- = another optional field, present / absent
+    ["P"], ["P", "r"], ["r", "P"], ["P", "o+"], ["o-", "P", "o+"], ["o+", "P"], ["r", "o-", "P"],
+]
+TABLE_DEFAULTS = [["v", "None"], ["v", "Ellipsis"], ["v", "0"], ["v", "''"], ["f", "list"], ["fs"],
+                  ["v", "NotImplemented"], ["v", "False"]]
+TABLE_VALUES = [None, "None", "Ellipsis", "0", "empty_str", "default_eq", "eq_all", "u", "NotImplemented", "False"]   # None = key absent
+TABLE_LOADERS = ["asis", "user", "int", "str", "optint", "utype"]
+TABLE_BOUNDS = {"quick": (5, 6, 8, 5), "thorough": (7, 8, 10, 6)}   # how many layouts / defaults / values / loaders
+
+
+def table_cases(tier):
+    nl, nd, nv, nld = TABLE_BOUNDS[tier]
+    kinds = ["dataclass", "attrs"] if tier == "quick" else ["dataclass", "attrs", "plain", "pydantic"]
+    for kind, layout, d, pv, ld, debug, sc in itertools.product(kinds, TABLE_LAYOUTS[:nl], TABLE_DEFAULTS[:nd], TABLE_VALUES[:nv],
+                                                                TABLE_LOADERS[:nld], range(3), (True, False)):
+        if d == ["fs"] and kind != "attrs":
+            continue
+        if tier == "quick" and kind == "attrs" and d != ["fs"]:
+            continue    # quick tier: attrs contributes what only attrs has, the default the loader can not evaluate itself
+        if d[0] == "f" and kind == "plain":
+            continue
+        if kind == "pydantic" and (ld not in ("asis", "user") or d == ["v", "Ellipsis"]):
+            continue
+        if not sc and ld in ("asis", "user", "utype"):
+            continue    # strict_coercion only selects among builtin loaders
+        fields, present, pvals = [], [], []
+        for j, role in enumerate(layout):
+            if role == "P":
+                fields.append({"n": "p", "pk": "kw_only", "d": d, "ld": ld})
+                present.append(pv is not None)
+                pvals.append(pv or "u")
+            elif role == "r":
+                fields.append({"n": f"r{j}", "pk": "kw_only", "d": None, "ld": "asis"})
+                present.append(True)
+                pvals.append("u")
+            else:
+                fields.append({"n": f"o{j}", "pk": "kw_only", "d": ["v", "'x'"], "ld": "asis"})
+                present.append(role == "o+")
+                pvals.append("None")
+        if kind == "pydantic":
+            for f in fields:
+                f["pk"] = "pos_or_kw"   # every pydantic field is keyword-only anyway
+        yield {"kind": kind, "fields": fields, "present": present, "layout": "dict", "debug": debug, "hooks": False,
+               "pvals": pvals, "mapping": "dict", "sc": sc, "table": True}
+
+
 def explore(ctx: runner.Ctx):
-    ctx.given(st_case(), lambda c: check_case(ctx, c), ctx.budget(15000, 300000))
+    for i, case in enumerate(table_cases(ctx.tier)):
+        if i % ctx.nshards == ctx.shard:
+            if ctx.out_of_time():
+                break
+            runner.guarded(ctx, lambda c: check_case(ctx, c), case)
+    nl, nd, nv, nld = TABLE_BOUNDS[ctx.tier]
+    ctx.mark_exhaustive(f"table: position of the optional field {TABLE_LAYOUTS[:nl]} (keyword-only fields) x default {TABLE_DEFAULTS[:nd]} "
+                        f"x key absent (None) / present with {TABLE_VALUES[:nv]} x field loader {TABLE_LOADERS[:nld]} x debug_trail x "
+                        f"strict_coercion (builtin loaders); model kinds: dataclass, attrs (quick: only for the takes_self default)"
+                        + ("" if ctx.tier == "quick" else ", plain class, pydantic"))
+    ctx.given(st_flat(), lambda c: check_case(ctx, c), ctx.budget(9000, 180000))
+    ctx.given(st_tree(), lambda c: check_case(ctx, c), ctx.budget(1600, 40000), seed_offset=17)
 
 
-RULE = ("cases = (model kind, fields with parameter kinds and defaults/factories from the look-alike pool, which optional "
-        "fields are present, dict/list layout, debug mode, hooks). Non-trivial = >= 1 optional field absent and (its default "
-        "is a look-alike / factory, or a present field follows a skipped one). Distinct by the whole case.")
+def st_case():
+    return st.one_of(st_flat(), st_tree())
+
+
+RULE = ("cases = (model kind, fields with parameter kinds, defaults/factories from the look-alike pool and a loader kind, which "
+        "optional fields are present and what they hold, dict/list layout, mapping type, debug mode, strict_coercion, hooks); "
+        "non-trivial = >= 1 optional field absent and (its default is a look-alike / factory, or a present field follows a "
+        "skipped one), or a present optional key holds a nothing-look-alike (None, Ellipsis, falsy, the default, ...) while "
+        "its loader is not the identity.  Tree cases = (recursive / mutually recursive TypedDict / attrs / dataclass models, "
+        "data tree with a per-node subset of optional keys, links loaded by adaptix or by a user loader re-entering the "
+        "retort); non-trivial = some object is loaded while an object of the same model with a different subset of optional "
+        "keys is being loaded.  Distinct by the whole case.")
 
 if __name__ == "__main__":
     raise SystemExit(runner.main(
         PROP, explore=explore, check_case=check_case, strategy=st_case(), rule=RULE,
         assumptions=["positional-only parameters are always given in the input (adaptix treats them as required fields)",
-                     "field types are Any, so loaded values are the input objects themselves (identity is checked)"],
+                     "fields annotated Any are passed as is (identity is checked); a field with a user loader must receive the "
+                     "very object the loader returned; a field with a builtin loader must receive a value type-exactly equal to "
+                     "what the standalone loader of that type returns (and the load must fail iff that loader raises LoadError)"],
     ))
